@@ -146,6 +146,7 @@ pub fn c10(o: &mut O, tier: &str, rng: &mut Rng) {
             observe_query(o, &qs, Some(Some(expected.clone())), &format!("c10,structured,variant{},n{}", variant, k.min(6)));
         }
     }
+    c10_many_pairs(o, tier, rng);
     // malformed stream
     let m = n / 4;
     let pieces: [&str; 14] = ["a", "=", "&", "%", "%4", "%zz", "%41", "+", "b", "%2", "%g0", "c=d", "&&", "%%"];
@@ -175,6 +176,69 @@ pub fn c10(o: &mut O, tier: &str, rng: &mut Rng) {
     c10_escape_bodies(o, tier);
     c10_enumerated(o);
     c10_continuations(o);
+}
+
+/// Queries with 33 ... 4096 pairs over a handful of names, so that every name is repeated many times
+/// with different values (and some exact duplicates): the canonical form is sorted by name and then
+/// by value whatever the number of pairs (sorting routines switch algorithms at small thresholds) and
+/// whatever the iteration order of the map the pairs were collected in.
+fn c10_many_pairs(o: &mut O, tier: &str, rng: &mut Rng) {
+    let sizes: Vec<usize> = match tier {
+        "quick" => vec![21, 33, 34, 48, 64, 65, 100, 128, 200, 256, 33, 57, 150, 1024, 1025, 4096],
+        // (a query of 4096 pairs costs the Coq side a quarter of a minute: four of them)
+        "thorough" => (0..240).map(|i| [21usize, 33, 34, 40, 64, 65, 100, 128, 129, 200, 256, 257, 512, 1024, 1025, if i < 64 { 4096 } else { 2048 }][i % 16] + if i >= 16 && i % 16 < 12 { i / 16 } else { 0 }).collect(),
+        _ => (0..64).map(|i| [21usize, 33, 34, 40, 64, 65, 100, 128, 129, 200, 256, 257, 512, 1024, 1025, 2048][i % 16] + i / 16).collect(),
+    };
+    let names: [&[u8]; 12] = [b"a", b"b", b"a-b", b"a b", b"A", b"", b"key", b"X-Amz-Date", b"a=", b"\xc3\xa9", b"k%", b"aa"];
+    for (i, n) in sizes.iter().enumerate() {
+        let n_names = [1usize, 2, 3, 5, 8, 12][i % 6];
+        let mut pairs: Vec<(Vec<u8>, Vec<u8>)> = Vec::new();
+        for j in 0..*n {
+            let name = names[(rng.below(n_names as u64) as usize + i) % names.len()].to_vec();
+            let value: Vec<u8> = match rng.below(8) {
+                0 => rng.pick(&VALUE_POOL[..]).to_vec(),
+                1 if j > 0 => pairs[rng.below(j as u64) as usize].1.clone(),
+                2 => format!("{}", rng.below(1000)).into_bytes(),
+                3 => format!("v{:03}", j).into_bytes(),
+                4 => format!("{} {}", j % 7, j).into_bytes(),
+                _ => format!("{:04}", (j * 7919 + i) % 10007).into_bytes(),
+            };
+            pairs.push((name, value));
+        }
+        if i % 4 == 1 {
+            pairs.push((b"X-Amz-Signature".to_vec(), b"deadbeef".to_vec()));
+        }
+        let filtered: Vec<(Vec<u8>, Vec<u8>)> = pairs.iter().filter(|p| p.0 != b"X-Amz-Signature").cloned().collect();
+        let expected = signer::canonical_query(&filtered);
+        for variant in 0..2 {
+            if variant == 1 && *n > 300 && tier == "quick" {
+                continue;
+            }
+            let sp = if variant == 0 { Spelling::canonical() } else { Spelling::random(rng) };
+            let mut ps = pairs.clone();
+            if variant > 0 {
+                rng.shuffle(&mut ps);
+            }
+            let mut q = Vec::new();
+            for (j, (k, v)) in ps.iter().enumerate() {
+                if j > 0 {
+                    q.push(b'&');
+                }
+                q.extend(spell_bytes(k, &sp, rng, true));
+                q.push(b'=');
+                q.extend(spell_bytes(v, &sp, rng, true));
+            }
+            observe_query(o, &String::from_utf8(q).unwrap(), Some(Some(expected.clone())), &format!("c10,many_pairs,variant{},n{}", variant, if *n > 1000 { 1000 } else if *n > 100 { 100 } else { 30 }));
+        }
+    }
+    // empty components by the thousand around a few pairs
+    for n in [33usize, 64, 256, 1024, 1025, 4096] {
+        let amps = "&".repeat(n);
+        let expected = signer::canonical_query(&[(b"a".to_vec(), b"2".to_vec()), (b"a".to_vec(), b"1".to_vec()), (b"b".to_vec(), b"".to_vec())]);
+        for q in [format!("{}a=2&a=1&b", amps), format!("a=2{}a=1&b{}", amps, amps), format!("a=2&a=1{}b", amps)] {
+            observe_query(o, &q, Some(Some(expected.clone())), "c10,many_empty_components");
+        }
+    }
 }
 
 /// Every two-character escape body `%XY`, in a name and in a value (the query-side twin of the
